@@ -1166,6 +1166,8 @@ class DesignSpace:
             out[..., norm_inds] -= self.__lower_bounds_array[norm_inds]
 
         if isinstance(out, sparse_classes):
+            # The column indices are stored in ``indices`` in the CSR format only.
+            out = out.tocsr()
             # Construct a mask to only scale the required columns
             column_mask = isin(out.indices, norm_inds)
             # Scale the corresponding coefficients
@@ -1317,6 +1319,8 @@ class DesignSpace:
             out = out.astype(current_x_dtype, copy=False)
 
         if isinstance(out, sparse_classes):
+            # The column indices are stored in ``indices`` in the CSR format only.
+            out = out.tocsr()
             # Construct a mask to only scale the required columns
             column_mask = isin(out.indices, norm_inds)
             # Scale the corresponding coefficients
